@@ -9,7 +9,7 @@ package verifhook
 var (
 	YieldFn           func(site string, key ...int)
 	ReleasedFn        func(b []byte)
-	PermuteBatchFn    func(n int, swap func(i, j int))
+	PermuteBatchFn    func(n int, key func(i int) [2]int, swap func(i, j int))
 	ReorderTripletsFn func(b []byte) []byte
 )
 
@@ -28,10 +28,11 @@ func Released(b []byte) {
 }
 
 // PermuteBatch lets the simulator replay any iteration order of a Go map
-// whose elements were collected into a slice of length n.
-func PermuteBatch(n int, swap func(i, j int)) {
+// whose elements were collected into a slice of length n; key(i) identifies
+// element i so that the simulator can first undo the runtime's random order.
+func PermuteBatch(n int, key func(i int) [2]int, swap func(i, j int)) {
 	if f := PermuteBatchFn; f != nil {
-		f(n, swap)
+		f(n, key, swap)
 	}
 }
 
